@@ -10,7 +10,14 @@ notes = json.load(open(NOTES_FILE)) if os.path.exists(NOTES_FILE) else {}
 
 results = {}
 confirm = {}
-logs = sys.argv[1:] or sorted(glob.glob("/tmp/proc4_*.log")) + sorted(glob.glob("/tmp/proc4b_*.log")) + sorted(glob.glob("/tmp/proc4c_*.log"))
+LOGDIR = os.path.join(ROOT, "seeded", "round4_logs")
+final_results = {}
+for f in sorted(glob.glob(os.path.join(LOGDIR, "final", "*.log"))):
+    for line in open(f, errors="replace"):
+        m = re.match(r"CHECK (C\d\d_r4m\d): (.*)", line)
+        if m and m.group(2).strip():
+            final_results[m.group(1)] = m.group(2).strip()
+logs = sys.argv[1:] or sorted(glob.glob(os.path.join(LOGDIR, "first", "*.log")))
 for f in logs:
     for line in open(f, errors="replace"):
         m = re.match(r"CONFIRM (C\d\d)r3m(\d): (.*)", line)
@@ -48,10 +55,12 @@ for d in sorted(glob.glob(os.path.join(ROOT, "seeded", "C??_r4m?"))):
     n = notes.get(mid, {})
     res = results.get(mid, "")
     first = n.get("first_result") or classify(res, mid[:3])
+    fres = final_results.get(mid, "")
+    final_auto = classify(fres, mid[:3]) if fres else first
     meta = {
         "property": mid[:3],
-        "round": 3,
-        "origin": "fresh sub-agent given only the property text, the summaries of the six changes of rounds 1 and 2 (to avoid repeats) and a scratch worktree (nothing from /verif)",
+        "round": 4,
+        "origin": "fresh sub-agent given only the property text, the summaries of the nine changes of rounds 1-3 (to avoid repeats), the request to aim at glue code (constructors, configuration, socket tasks, conversions, service plumbing) and a scratch worktree (nothing from /verif)",
         "summary": am.get("summary", ""),
         "needs_to_manifest": am.get("what_it_needs_to_manifest", ""),
         "files_changed": am.get("files_changed", []),
@@ -60,7 +69,8 @@ for d in sorted(glob.glob(os.path.join(ROOT, "seeded", "C??_r4m?"))):
         "check_run": "tools/seedtest.sh (scratch copy of /verif + scratch worktree of /repo with the patch applied): ./check %s --tier quick" % mid[:3],
         "check_output": res[:500],
         "first_result": first,
-        "final_result": n.get("final_result") or first,
+        "final_check_output": fres[:500],
+        "final_result": n.get("final_result") or (final_auto if final_auto == first else final_auto + " (after the round-4 strengthening, see DESIGN.md section 12)"),
     }
     if n.get("note"):
         meta["note"] = n["note"]
